@@ -294,3 +294,175 @@ def rule_ordered_collects(ctx, rule, fv, expect_min):
                  "expected at least %d order-preserving parallel collect(s) in %s, found %d — the batch "
                  "is no longer produced by an indexed collect" % (expect_min, fv.path, n_found), fv.fn["sp"])
     return n_found
+
+
+# --------------------------------------------------------------------------- ACC family (C04/C12/C13)
+
+GEN_NEW = "kmer::kmer::KmerGenerator::new"
+
+
+def is_gu(t, mut=None):
+    """slice/Vec get_unchecked(_mut) call term"""
+    if t[0] != "call":
+        return False
+    last = t[1].split("::")[-1]
+    if mut is True:
+        return last == "get_unchecked_mut"
+    if mut is False:
+        return last == "get_unchecked"
+    return last in ("get_unchecked", "get_unchecked_mut")
+
+
+def acc_family(ctx, rule, fv, who, seq_term, norm_term, n_term=None, k_term=None, map_term=None):
+    """Slots of a canonical-k-mer accumulation loop; reports against the reference shape.
+    seq_term: term of the sequence argument of KmerGenerator::new; norm_term: the normalisation flag."""
+    n_term = n_term or SF("kcount")
+    k_term = k_term or SF("ksize")
+    map_term = map_term or SF("pos_map")
+    sp = fv.fn["sp"]
+    loops = [l for l in fv.nodes if l.get("k") == "for" and "kmer::kmer::KmerGenerator<" in l.get("iter_ty", "")]
+    if len(loops) != 1:
+        ctx.fail(rule, "%s:source" % who, "expected exactly one loop over KmerGenerator items, found %d" % len(loops), sp)
+        return
+    loop = loops[0]
+    it = fv.term(loop["iter"])
+    ctx.check(rule, "%s:source" % who, it == ("call", GEN_NEW, seq_term, k_term),
+              "items of KmerGenerator::new(%s, %s)" % (show(seq_term), show(k_term)),
+              "k-mers come from `%s`, expected KmerGenerator::new(%s, %s) — the k of the generator must be the "
+              "k the rank map was built with" % (show(it), show(seq_term), show(k_term)), line_of(loop))
+    item = ("item", it)
+    key = mk_bin("min", ("proj", 0, item), ("proj", 1, item))
+    # bucket & total
+    muts = {lid: b for lid, b in fv.binds.items() if b["mut"] and b["val"][0] == "node"}
+    bucket = [(lid, b) for lid, b in muts.items()
+              if fv.term(b["val"][1])[0] == "call" and fv.term(b["val"][1])[1].endswith("from_elem")]
+    totals = [(lid, b) for lid, b in muts.items() if fv.term(b["val"][1]) == L(0.0)]
+    if len(bucket) != 1 or len(totals) != 1:
+        ctx.fail(rule, "%s:bucket" % who, "expected one zero-filled vector and one f64 total starting at 0.0 "
+                 "(found %d / %d)" % (len(bucket), len(totals)), sp)
+        return
+    bl, bb = bucket[0]
+    tl, tb = totals[0]
+    bv = ("local", bb["name"], bl)
+    tv = ("local", tb["name"], tl)
+    alloc = fv.term(bb["val"][1])
+    ctx.check(rule, "%s:bucket" % who, alloc[2] == L(0.0) and alloc[3] == n_term,
+              "bucket = vec![0.0; %s]" % show(n_term),
+              "bucket is `%s`, expected %s zeroes" % (show(alloc), show(n_term)), line_of(bb["val"][1]))
+    # body: straight-line effects
+    ops = [x for x in walk(loop["body"]) if x.get("k") == "assignop"]
+    incs = [x for x in ops if fv.term(x["l"]) != tv]
+    tots = [x for x in ops if fv.term(x["l"]) == tv]
+    column = ("call", W("gu", lambda t: isinstance(t, str) and t.endswith("get_unchecked")), map_term, key)
+    ok_inc = False
+    detail = "<none>"
+    if len(incs) == 1:
+        lt = fv.term(incs[0]["l"])
+        detail = "%s %s %s" % (show(lt), incs[0]["op"], show(fv.term(incs[0]["r"])))
+        if lt[0] == "call" and lt[1].split("::")[-1] in ("get_unchecked_mut", "index_mut") and lt[2] == bv:
+            col = lt[3]
+            ok_col = col[0] == "call" and col[1].split("::")[-1] == "get_unchecked" and col[2] == map_term \
+                and col[3] == key
+            ok_inc = ok_col and incs[0]["op"] == "+=" and fv.term(incs[0]["r"]) == L(1.0)
+        elif lt[0] == "index" and lt[1] == bv:
+            col = lt[2]
+            ok_col = (col[0] == "index" and col[1] == map_term and col[2] == key) or \
+                (col[0] == "call" and col[1].split("::")[-1] == "get_unchecked" and col[2] == map_term and col[3] == key)
+            ok_inc = ok_col and incs[0]["op"] == "+=" and fv.term(incs[0]["r"]) == L(1.0)
+    ctx.check(rule, "%s:increment" % who, ok_inc,
+              "bucket[rank[min(f,r)]] += 1.0 once per item",
+              "per-item update is `%s` (%d updates); expected exactly one `bucket[%s[min(fwd,rev)]] += 1.0`"
+              % (detail, len(incs), show(map_term)), line_of(incs[0]) if incs else line_of(loop))
+    ok_tot = len(tots) == 1 and tots[0]["op"] == "+=" and fv.term(tots[0]["r"]) == L(1.0)
+    ctx.check(rule, "%s:total" % who, ok_tot, "total += 1.0 once per item",
+              "total is updated %d time(s) per item / not by 1.0" % len(tots),
+              line_of(tots[0]) if tots else line_of(loop))
+    branchy = [x for x in walk(loop["body"]) if x.get("k") in ("if", "match", "continue", "break", "ret")]
+    ctx.check(rule, "%s:every_item" % who, not branchy, "no item is skipped",
+              "the accumulation loop has conditional control flow: some windows may not be counted",
+              line_of(branchy[0]) if branchy else None)
+    normaliser(ctx, rule, fv, who, norm_term, tv, bv)
+    res = fv.term(fv.body.get("expr")) if fv.body.get("expr") else ("none",)
+    ctx.check(rule, "%s:result" % who, res == bv, "the bucket is returned",
+              "returns `%s`, not the accumulated vector" % show(res), line_of(fv.body))
+
+
+def normaliser(ctx, rule, fv, who, norm_term, tv, bv):
+    """every `/=` in fv is guarded by norm_term and divides by max(1.0, total)"""
+    divs = [x for x in fv.nodes if x.get("k") == "assignop" and x["op"] == "/="]
+    other_div = [x for x in fv.nodes if x.get("k") == "bin" and x["op"] == "/" and x.get("ty") == "f64"
+                 and contains(fv.term(x), lambda s: s == tv)]
+    if len(divs) != 1 or other_div:
+        ctx.fail(rule, "%s:normalise" % who, "expected exactly one in-place division of the vector (found %d, "
+                 "plus %d other divisions by the total)" % (len(divs), len(other_div)), fv.fn["sp"])
+        return
+    d = divs[0]
+    rt = fv.term(d["r"])
+    ok_div = rt == mk_bin("max", L(1.0), tv)
+    ctx.check(rule, "%s:divisor" % who, ok_div, "divisor = max(1.0, total)",
+              "divisor is `%s`; a record without valid windows (total = 0) must divide by max(1.0, total)"
+              % show(rt), line_of(d))
+    gs = [(fv.term(c), pol) for c, pol in fv.guards(d)]
+    ctx.check(rule, "%s:norm_guard" % who, (norm_term, True) in gs and len(gs) == 1,
+              "normalisation only under %s" % show(norm_term),
+              "normalisation is guarded by %s, expected exactly `%s`"
+              % ([("" if p else "!") + show(g) for g, p in gs], show(norm_term)), line_of(d))
+    # applied to every element of the bucket
+    fe = fv.enclosing(d, ("closure",))
+    host = fv.parent.get(id(fe)) if fe is not None else fv.enclosing(d, ("for",))
+    ok_all = False
+    if host is not None and host.get("k") == "mcall" and cname(host).endswith("Iterator::for_each"):
+        rt2 = fv.term(host["recv"])
+        ok_all = rt2[0] == "call" and rt2[1].endswith("iter_mut") and rt2[2] == bv
+    elif host is not None and host.get("k") == "for":
+        it = fv.term(host["iter"])
+        ok_all = it[0] == "call" and it[1].endswith("iter_mut") and it[2] == bv
+    ctx.check(rule, "%s:norm_all" % who, ok_all, "every element of the bucket is divided",
+              "the division does not run over bucket.iter_mut()", line_of(d))
+
+
+# --------------------------------------------------------------------------- number / row formatting
+
+def formats_in(fv, root=None):
+    """[(node, decoded format term)] for every format!() expansion under root"""
+    out = []
+    for n in (walk(root) if root is not None else fv.nodes):
+        if n.get("k") == "call" and cname(n) in ("std::fmt::format", "alloc::fmt::format"):
+            ft = decode_arguments(fv, n)
+            if ft is not None:
+                out.append((n, ft))
+    return out
+
+
+def number_format_rule(ctx, rule, fv, who, root, norm_term, expect_norm_only=False):
+    """value formatting: under norm -> 6 decimals (NUMBER_SIZE-2), otherwise plain display"""
+    fmts = [(n, ft) for n, ft in formats_in(fv, root)
+            if len(ft[1]) == 1 and ft[1][0][0] == "arg"]
+    n_ok = 0
+    for n, ft in fmts:
+        piece = ft[1][0]
+        prec = piece[3]
+        gs = [(fv.term(c), pol) for c, pol in fv.guards(n)]
+        under_norm = (norm_term, True) in gs
+        under_raw = (norm_term, False) in gs
+        if expect_norm_only:
+            under_norm = True
+        pv = None
+        if prec is not None:
+            pv = prec[1] if prec[0] == "lit" else (prec[1][1] if prec[1][0] == "lit" else None)
+        key = "%s:value_format@%s" % (who, "norm" if under_norm else ("raw" if under_raw else "unguarded"))
+        if under_norm:
+            ctx.check(rule, key, piece[2] == "display" and pv == 6,
+                      "normalised values printed with 6 decimals",
+                      "normalised value format is `%s` with precision %s; the property promises 6 decimals "
+                      "(NUMBER_SIZE - 2)" % (fmt_template(ft), show(prec[1]) if prec and prec[0] == "arg" else pv),
+                      line_of(n))
+        elif under_raw:
+            ctx.check(rule, key, piece[2] == "display" and prec is None and piece[4] is None,
+                      "counts printed with plain Display", "count format is `%s`, expected `{}`" % fmt_template(ft),
+                      line_of(n))
+        else:
+            ctx.fail(rule, key, "value format `%s` is not selected by the normalisation flag" % fmt_template(ft),
+                     line_of(n))
+        n_ok += 1
+    return n_ok
